@@ -1182,7 +1182,7 @@ func runL1History(g *gen, mode string, nops int, hstats map[string]int, faulty, 
 			op.when = baseTime + int64(g.r.Intn(6))*1000000000 - 3000000000
 			op.seed = g.r.Int63n(1000000)
 			if op.ro && len(known) > 0 && g.r.Intn(2) == 0 {
-				n := 1 + g.r.Intn(2)
+				n := g.r.Intn(3) // 0: the version of the still-empty table ([]): an empty tree, not "no restriction"
 				op.only = []string{}
 				for i := 0; i < n; i++ {
 					op.only = append(op.only, w.nm.nm(known[g.r.Intn(len(known))]))
